@@ -58,6 +58,7 @@ func (e *Engine) verifyFunc(fn *ssa.Function, fc *FuncContract) *FuncReport {
 			break
 		}
 		s := e.newState(dec, name)
+		s.unfoldCRC = fc.Options["unfold-crcfold"]
 		func() {
 			defer func() {
 				if r := recover(); r != nil {
@@ -139,47 +140,62 @@ func (e *Engine) runPath(s *State, fn *ssa.Function, fc *FuncContract, rep *Func
 	s.frameObligations(fc, args)
 }
 
-// obligeSplit splits conjunctions and strips top-level universal quantifiers (the bound variable becomes a free constant).
+// obligeSplit splits a goal into independent obligations: conjunctions, top-level universal quantifiers (the
+// bound variable becomes a free constant) and `A ==> (B1 && B2)`.  Distribution is budgeted so that it cannot
+// explode; beyond the budget the goal stays one obligation.
 func (s *State) obligeSplit(kind, name string, g *Term) {
-	if g.Op == "and" {
-		for i, a := range g.Args {
-			s.obligeSplit(kind, fmt.Sprintf("%s.%d", name, i), a)
+	parts := splitGoal(g, 12)
+	if len(parts) == 1 {
+		s.oblige(kind, name, parts[0])
+		return
+	}
+	for i, p := range parts {
+		s.oblige(kind, fmt.Sprintf("%s.%d", name, i), p)
+	}
+}
+
+func splitGoal(g *Term, budget int) []*Term {
+	if budget <= 1 {
+		return []*Term{g}
+	}
+	switch g.Op {
+	case "and":
+		var out []*Term
+		for _, a := range g.Args {
+			out = append(out, splitGoal(a, budget/len(g.Args)+1)...)
 		}
-		return
-	}
-	if g.Op == "forall" {
-		s.obligeSplit(kind, name, g.Args[0])
-		return
-	}
-	if g.Op == "or" {
+		if len(out) > budget {
+			return []*Term{g}
+		}
+		return out
+	case "forall":
+		return splitGoal(g.Args[0], budget)
+	case "or":
 		// A \/ forall k. B  ==  forall k. (A \/ B)   (k is fresh, not free in A)
 		for i, a := range g.Args {
 			if a.Op == "forall" {
 				rest := append(append([]*Term{}, g.Args[:i]...), g.Args[i+1:]...)
-				var nb []*Term
-				if a.Args[0].Op == "and" {
-					for j, c := range a.Args[0].Args {
-						s.obligeSplit(kind, fmt.Sprintf("%s.%d", name, j), Or(append(append([]*Term{}, rest...), c)...))
-					}
-					return
-				}
-				nb = append(rest, a.Args[0])
-				s.obligeSplit(kind, name, Or(nb...))
-				return
+				return splitGoal(Or(append(rest, a.Args[0])...), budget)
 			}
 		}
-		// A \/ (B /\ C) == (A \/ B) /\ (A \/ C): split to get one obligation per conjunct
-		for i, a := range g.Args {
-			if a.Op == "and" {
+		// distribute over the LAST conjunction only (the consequent of an implication is printed last)
+		for i := len(g.Args) - 1; i >= 0; i-- {
+			a := g.Args[i]
+			if a.Op == "and" && len(a.Args) <= budget {
 				rest := append(append([]*Term{}, g.Args[:i]...), g.Args[i+1:]...)
-				for j, c := range a.Args {
-					s.obligeSplit(kind, fmt.Sprintf("%s.%d", name, j), Or(append(append([]*Term{}, rest...), c)...))
+				var out []*Term
+				for _, c := range a.Args {
+					out = append(out, splitGoal(Or(append(append([]*Term{}, rest...), c)...), 2)...)
 				}
-				return
+				if len(out) > budget {
+					return []*Term{g}
+				}
+				return out
 			}
+			break
 		}
 	}
-	s.oblige(kind, name, g)
+	return []*Term{g}
 }
 
 // frameObligations: every pre-existing object whose contents changed must be covered by a modifies clause.
@@ -187,12 +203,13 @@ func (s *State) frameObligations(fc *FuncContract, args []Value) {
 	var regs []*Region
 	logOK := false
 	for _, m := range fc.Modifies {
-		r := s.evalModifies(m, args)
-		if r != nil && r.Ghost == "log" {
-			logOK = true
-		}
-		if r != nil {
-			regs = append(regs, r)
+		for _, r := range s.evalModifies(m, args) {
+			if r != nil && r.Ghost == "log" {
+				logOK = true
+			}
+			if r != nil {
+				regs = append(regs, r)
+			}
 		}
 	}
 	if !logOK && len(s.log) != s.entry.logLen {
@@ -200,7 +217,7 @@ func (s *State) frameObligations(fc *FuncContract, args []Value) {
 	}
 	for id, cur := range s.heap {
 		o := s.objByID(id)
-		if o == nil || o.Fresh {
+		if o == nil || o.Fresh || o.Ghost == "peekview" || o.Ghost == "streamview" {
 			continue
 		}
 		old, ok := s.entry.heap[id]
